@@ -1,10 +1,11 @@
 #!/bin/bash
 # tools/try_seed.sh <id> [property ...]
-# Applies /verif/seeded/<id>/patch.diff to /repo, runs the quick checks of the given properties
+# Applies $ROOT/seeded/<id>/patch.diff to /repo, runs the quick checks of the given properties
 # (default: the property recorded in meta.json, else all), and ALWAYS restores /repo afterwards.
 set -u
 id="$1"; shift
-dir="/verif/seeded/$id"
+ROOT="$(cd "$(dirname "$0")/.." && pwd)"
+dir="$ROOT/seeded/$id"
 [ -f "$dir/patch.diff" ] || { echo "no $dir/patch.diff"; exit 2; }
 [ -z "$(git -C /repo status --porcelain -- src Cargo.toml)" ] || { echo "/repo has uncommitted changes"; exit 2; }
 props="$*"
@@ -14,21 +15,21 @@ exec 8>/var/tmp/lzsim-repo.lock; flock -x 8; export VERIF_NO_REPO_LOCK=1
 git -C /repo apply "$dir/patch.diff" || { echo "patch does not apply"; exit 2; }
 # evidence/ and replays/ describe the unchanged tree: keep them out of a seed trial's way
 bak="$(mktemp -d /var/tmp/seedtrial.XXXXXX)"
-cp -a /verif/evidence "$bak/evidence"; [ -d /verif/replays ] && mv /verif/replays "$bak/replays"
+cp -a $ROOT/evidence "$bak/evidence"; [ -d $ROOT/replays ] && mv $ROOT/replays "$bak/replays"
 restore() {
   git -C /repo checkout -- .
   # keep the three smallest replay files of the trial next to the patch
   rm -rf "$dir/replays"; mkdir -p "$dir/replays"
-  ls -Sr /verif/replays/*.json 2>/dev/null | head -3 | while read -r f; do cp "$f" "$dir/replays/"; done
+  ls -Sr $ROOT/replays/*.json 2>/dev/null | head -3 | while read -r f; do cp "$f" "$dir/replays/"; done
   rmdir "$dir/replays" 2>/dev/null
-  rm -rf /verif/evidence /verif/replays
-  cp -a "$bak/evidence" /verif/evidence; [ -d "$bak/replays" ] && cp -a "$bak/replays" /verif/replays
+  rm -rf $ROOT/evidence $ROOT/replays
+  cp -a "$bak/evidence" $ROOT/evidence; [ -d "$bak/replays" ] && cp -a "$bak/replays" $ROOT/replays
   rm -rf "$bak"
 }
 trap restore EXIT
 caught=""
 for p in $props; do
-  out="$(cd /verif && VERIF_SEED="${VERIF_SEED:-20260923}" ./check "$p" "${TIER:-quick}" 2>&1)"; rc=$?
+  out="$(cd "$ROOT" && VERIF_SEED="${VERIF_SEED:-20260923}" ./check "$p" "${TIER:-quick}" 2>&1)"; rc=$?
   n=$(echo "$out" | grep -c '^VIOLATION')
   echo "$p: exit $rc, $n VIOLATION line(s)"
   echo "$out" | grep -A1 '^VIOLATION' | grep '^#' | head -3
